@@ -86,6 +86,7 @@ type RespObs struct {
 	Calls    []Call    `json:"calls,omitempty"`
 	Panic    string    `json:"panic,omitempty"`
 	FaultHit bool      `json:"faultHit"`
+	Leaks    []Leak    `json:"leaks"`
 }
 
 // SafeRedir is the same-site return target the composite model uses (hostile
@@ -268,6 +269,10 @@ func (w *World) rcString(g, i int, junk string) string {
 func (w *World) BuildReq(e Event) Req {
 	rq := Req{Browser: e.B, Method: "POST", Fault: e.Fault, FaultE: e.FaultE}
 	pid := PidPool[e.Pid]
+	if e.Junk == "case" && w.In.Cfg.FoldPid {
+		// a look-alike spelling the (normalising) store resolves to the same account
+		pid = strings.ToUpper(pid[:1]) + pid[1:]
+	}
 	form := map[string]string{}
 	switch e.Act {
 	case "LoginPost":
@@ -505,7 +510,7 @@ func (w *World) learn(r Resp) {
 }
 
 func (w *World) classify(e Event, r Resp) RespObs {
-	o := RespObs{Class: "none", Loc: "none", SeenUser: "none", SeenKeys: []string{}, Mails: []MailObs{}, Sms: []SmsObs{},
+	o := RespObs{Class: "none", Loc: "none", SeenUser: "none", SeenKeys: []string{}, Mails: []MailObs{}, Sms: []SmsObs{}, Leaks: []Leak{},
 		Status: r.Status, Calls: r.Calls, Panic: r.Panic, FaultHit: r.FaultHit}
 	for _, m := range r.Mails {
 		mo := MailObs{Kind: m.Kind, To: []string{}}
@@ -612,9 +617,11 @@ func (w *World) Step(e Event) (RespObs, *Req, Resp) {
 			panic(err)
 		}
 		r := Resp{Mails: w.In.Mail.take()}
-		w.In.Log.take()
+		lg := w.In.Log.take()
 		w.learn(r)
-		return w.classify(e, Resp{Mails: r.Mails, WroteHead: true, Status: 0}), nil, r
+		ro := w.classify(e, Resp{Mails: r.Mails, WroteHead: true, Status: 0})
+		ro.Leaks = w.Scan(lg)
+		return ro, nil, r
 	case "UpdatePassword":
 		u, err := w.In.Store.Load(bg, PidPool[e.Pid])
 		if err == authboss.ErrUserNotFound {
@@ -664,17 +671,22 @@ func (w *World) Step(e Event) (RespObs, *Req, Resp) {
 	r := w.In.Do(rq)
 	w.noteSMS()
 	w.learn(r)
-	return w.classify(e, r), &rq, r
+	ro := w.classify(e, r)
+	ro.Leaks = w.Scan(r.Log)
+	return ro, &rq, r
 }
 
 func envResp() RespObs {
-	return RespObs{Class: "none", Loc: "none", SeenUser: "none", SeenKeys: []string{}, Mails: []MailObs{}, Sms: []SmsObs{}}
+	return RespObs{Class: "none", Loc: "none", SeenUser: "none", SeenKeys: []string{}, Mails: []MailObs{}, Sms: []SmsObs{}, Leaks: []Leak{}}
 }
 
 // ApplySeed creates the initial accounts directly in storage.
 func (w *World) ApplySeed(seeds []SeedUser) {
 	for _, s := range seeds {
 		u := &User{PID: PidPool[s.Pid], Email: PidPool[s.Pid], Confirmed: s.Conf}
+		if s.Pid == "u2" {
+			u.Secondary = []string{PidPool["u2s"]}
+		}
 		if s.Pw >= 1 {
 			h, _ := bcrypt.GenerateFromPassword([]byte(PwPool[s.Pw-1]), bcrypt.MinCost)
 			u.Password = string(h)
